@@ -988,3 +988,68 @@ Proof.
   pose proof (lex_loop_comments bs max_tokens (S (length bs)) (bs, 0) 0 [] [] ltac:(cbn; lia) eq_refl I ltac:(cbn; lia)) as P.
   rewrite H in P. exact P.
 Qed.
+
+(* ---------------------------------------------------------------------------------------------- *)
+(* quoted identifiers are kept distinct: a token read from "..." has the double-quoted kind and quote mark 34, a token
+   read from `...` has the identifier kind and quote mark 96 — whatever the text between the quotes spells —
+   while every token read as a word (identifier or keyword) has quote mark 0 *)
+
+Lemma quoted_ident_body_kind bs fuel start quote c buf :
+  post (fun r => fst (fst (fst r)) = TT_DoubleQuotedString /\ snd (fst r) = quote)
+       (match quoted_ident_body bs fuel start quote c buf with OutOfFuel => Err 0 0 0 | o => o end).
+Proof.
+  revert c buf. induction fuel as [|f IH]; intros c buf; [exact I |].
+  cbn [quoted_ident_body]. destruct (fst c); [unfold err_at; destruct (to_loc bs start); exact I |].
+  destruct (decode_rune (n :: l)) as [r0 sz]. cbv zeta.
+  destruct (normalize_quote r0 =? quote).
+  - destruct (skipn sz (n :: l)); [cbn; auto |].
+    destruct (decode_rune (n0 :: l0)) as [nr0 nsz]. destruct (normalize_quote nr0 =? quote); [apply IH | cbn; auto].
+  - destruct (normalize_quote r0 =? 10); [unfold err_at; destruct (to_loc bs start); exact I | apply IH].
+Qed.
+
+Theorem double_quoted_kind bs tl i ty v q c' :
+  next_token bs (34 :: tl, i) = Val ((ty, v, q), c') -> ty = TT_DoubleQuotedString /\ q = 34.
+Proof.
+  unfold next_token. cbn [fst]. rewrite decode_ascii by lia.
+  destruct dispatch_dq as (A & B & C). rewrite A, B. cbn [N.eqb Pos.eqb orb].
+  unfold read_quoted_identifier. cbn [fst]. rewrite decode_ascii by lia. rewrite C.
+  intros H.
+  pose proof (quoted_ident_body_kind bs (S (length (fst (adv_rune (34 :: tl, i) 1)))) (snd (34 :: tl, i)) 34
+                (adv_rune (34 :: tl, i) 1) []) as P.
+  rewrite H in P. exact P.
+Qed.
+
+Lemma backtick_body_kind bs start : forall n l p buf, (length l <= n)%nat ->
+  post (fun r => fst (fst (fst r)) = TT_Identifier /\ snd (fst r) = 96) (backtick_body bs start l p buf).
+Proof.
+  induction n as [|n IH]; intros l p buf Hn.
+  - destruct l; [unfold backtick_body, err_at; destruct (to_loc bs start); exact I | cbn in Hn; lia].
+  - destruct l as [|ch tl]; cbn [backtick_body]; [unfold err_at; destruct (to_loc bs start); exact I |].
+    cbn [length] in Hn. destruct (ch =? 96).
+    + destruct tl as [|ch2 tl2]; [cbn; auto |]. destruct (ch2 =? 96); [apply IH; cbn [length] in Hn; lia | cbn; auto].
+    + destruct (ch =? 10); apply IH; lia.
+Qed.
+
+Theorem backtick_kind bs tl i ty v q c' :
+  next_token bs (96 :: tl, i) = Val ((ty, v, q), c') -> ty = TT_Identifier /\ q = 96.
+Proof.
+  unfold next_token. cbn [fst]. rewrite decode_ascii by lia.
+  destruct dispatch_bt as (A & B & C). rewrite A, B, C. cbn [N.eqb Pos.eqb orb].
+  unfold read_backtick. cbn [fst snd]. intros H.
+  pose proof (backtick_body_kind bs i (length tl) tl (i + 1) [] (le_n _)) as P.
+  rewrite H in P. exact P.
+Qed.
+
+(* a word is read with quote mark 0 *)
+Theorem word_unquoted c ty v q c' : read_identifier c = Val ((ty, v, q), c') -> q = 0.
+Proof.
+  unfold read_identifier. destruct (decode_rune (fst c)) as [r sz].
+  destruct (span is_ident_part (adv_rune c sz)) as [[w c2]| | |]; cbn [bind]; try discriminate.
+  set (plain := Val (_, c2)).
+  assert (PL : plain = Val (ty, v, q, c') -> q = 0) by (unfold plain; intros [= _ _ <- _]; reflexivity).
+  destruct (mem_b compound_starts _); [| exact PL].
+  destruct (fst (skip_ws (fst c2) (snd c2))); [exact PL |].
+  destruct (decode_rune (n :: l)) as [r2 sz2]. destruct (is_ident_start r2); [| exact PL].
+  destruct (span is_ident_part _) as [[w2 c4]| | |]; cbn [bind]; try discriminate.
+  destruct (assoc_b compound_keywords _); [intros [= _ _ <- _]; reflexivity | exact PL].
+Qed.
